@@ -280,7 +280,7 @@ fn check_order(c: &OrderCase) -> Verdict {
 
 fn groups(g: &mut Groups) {
     use proptest::prelude::*;
-    g.prop("registration_order", 8_000, 200_000, || (super::twingen::spec_with(0.3), 0u32..=12).prop_map(|(spec, permutation)| OrderCase { spec, permutation }), check_order);
+    g.prop("registration_order", 8_000, 800_000, || (super::twingen::spec_with(0.3), 0u32..=12).prop_map(|(spec, permutation)| OrderCase { spec, permutation }), check_order);
     if !g.is_run() || g.ctx.shard != 0 {
         return;
     }
